@@ -3,6 +3,6 @@
 W=$1; SRC=${2:-/repo/src}
 D=$(mktemp -d /var/tmp/yaep-wit.XXXXXX); trap 'rm -rf "$D"' EXIT
 bison -o $D/sgramm.c $SRC/sgramm.y 2>/dev/null || exit 2
-gcc -g -O0 -w -fsanitize=address,undefined -fno-sanitize-recover=undefined -I$SRC -I$D -I$(dirname $W) $W $SRC/yaep.c $SRC/allocate.c $SRC/hashtab.c $SRC/objstack.c $SRC/vlobject.c -o $D/w || exit 2
+gcc -g -O1 -DYAEP_VERIF -w -fsanitize=address,undefined -fno-sanitize-recover=undefined -I$SRC -I$D -I$(dirname $W) $W $SRC/yaep.c $SRC/allocate.c $SRC/hashtab.c $SRC/objstack.c $SRC/vlobject.c -o $D/w || exit 2
 ASAN_OPTIONS=detect_leaks=${LEAKS:-0} MALLOC_PERTURB_=165 timeout 60 $D/w 2>&1 | grep -v "^conda\|^$" | head -${LINES_MAX:-12}
 exit ${PIPESTATUS[0]}
